@@ -234,7 +234,36 @@ def session_jobs(tier, wd, seed, refs):
                             script += [{"c": "release_all"}, {"c": "idle"}]
             script += [{"c": "idle"}, {"c": "release_all"}, {"c": "idle"}]
             jobs.append({"kind": "session" if serial else "session-raw", "cls": cls, "script": script, "twin": serial})
+    jobs += burst_jobs()
     return jobs, infos
+
+
+def burst_jobs():
+    """Directed scripts: several lines written at once, so that the session handles them back to back in one go
+    (e.g. a group is cancelled before its spawner took its first step, then flushed / closed)."""
+    B = {
+        "TaskPool": [["map ctlfuncs.work [1,2] -g gm", "cancel-group gm", "flush", "num-running"],
+                     ["apply ctlfuncs.work -n 2 -g ga", "cancel-all", "flush -r", "gather-and-close", "is-locked"],
+                     ["apply ctlfuncs.fail -g gf", "flush", "flush -r", "apply ctlfuncs.quick", "cancel 0 5", "unknown-cmd", "lock"],
+                     ["starmap ctlfuncs.quick [(1,2),(3,4)] -n 2", "doublestarmap ctlfuncs.quick [{'a':1}]", "get-group-ids starmap-quick-group-0", "cancel-group nosuch"]],
+        "SimpleTaskPool": [["start 2", "cancel-group start-group-0", "flush", "num-running"],
+                           ["start 1", "stop 1", "start 2", "stop-all", "flush -r", "gather-and-close", "start 1"],
+                           ["start 3", "cancel-all", "flush", "stop 5", "pool-size 2", "pool-size"]],
+    }
+    jobs = []
+    for cls, bursts in B.items():
+        for lines in bursts:
+            for split in (len(lines), 2, 1):        # all at once / in pairs / one by one
+                script = [{"c": "connect", "s": 0, "width": 80}, {"c": "idle"}]
+                for i, text in enumerate(lines):
+                    first = text.split(" ")[0]
+                    script.append({"c": "send", "s": 0, "text": text, "cmd": first, "ser": False,
+                                   "cls": "await" if first in ("flush", "gather-and-close", "until-closed") else "burst"})
+                    if (i + 1) % split == 0:
+                        script.append({"c": "idle"})
+                script += [{"c": "idle"}, {"c": "release_all"}, {"c": "idle"}, {"c": "eof", "s": 0}]
+                jobs.append({"kind": "session-burst", "cls": cls, "script": script, "twin": False})
+    return jobs
 
 
 def make_refs():
